@@ -297,7 +297,14 @@ fn path_strings(comps: &[&str], maxc: usize, mixed: bool) -> Vec<String> {
             } else if mixed {
                 (0..(1u64 << (n - 1))).map(|m| (0..n - 1).map(|b| if (m >> b) & 1 == 0 { '/' } else { '\\' }).collect()).collect()
             } else {
-                vec![vec!['/'; n - 1], vec!['\\'; n - 1]]
+                let mut v = vec![vec!['/'; n - 1], vec!['\\'; n - 1]];
+                // the library prefix is spelled `<std>/`; what follows it may use the other slash style
+                if cs[0] == "<std>" && n >= 3 {
+                    let mut m = vec!['\\'; n - 1];
+                    m[0] = '/';
+                    v.push(m);
+                }
+                v
             };
             for seps in &sep_variants {
                 let mut body = String::new();
@@ -972,7 +979,8 @@ fn judge_fn(c: &FnCase, l: &mut Local) {
     let content = fn_file_content(c);
     let files = vec![("main.asm".to_string(), prog.clone().into_bytes()), ("f.dat".to_string(), content.clone())];
     let len = c.units.len();
-    let want = model::slice(len, c.start.unwrap_or(0), c.length);
+    // the one-argument form asks for the whole file: of an empty file that is nothing, and nothing is past its end
+    let want = if len == 0 && c.start.is_none() && c.length.is_none() { Slice::Range(0, 0) } else { model::slice(len, c.start.unwrap_or(0), c.length) };
     l.eval();
     if c.start.unwrap_or(0) > 0 || c.length.is_some() {
         l.nontrivial(&("fn", c.func, &c.units, c.format, c.start, c.length));
